@@ -27,7 +27,10 @@ def one(sid):
         return sid, {"error": "worktree add failed: " + log[-300:]}
     try:
         if sid != "BASE":
-            rc, log = sh(["git", "apply", os.path.join(V, "seeded", sid, "patch.diff")], cwd=wt)
+            pd = os.path.join(V, "seeded", sid, "patch.diff")
+            if not os.path.exists(pd):
+                pd = os.path.join(V, "refactors", sid, "patch.diff")
+            rc, log = sh(["git", "apply", pd], cwd=wt)
             if rc != 0:
                 return sid, {"error": "patch does not apply: " + log[-300:]}
         for pid in PIDS:
